@@ -75,3 +75,14 @@ Print Assumptions C13_bin_same_index.
 Print Assumptions C13_sparse_same_index.
 Print Assumptions C13_central_same_index.
 Print Assumptions C13_bin_partition.
+
+(* exact instance: the SparselyBin bin a value is filled into ([origin + k w, origin + (k+1) w)) contains it *)
+Theorem C13_sparse_partition : forall (bw o q : Qc),
+  0 < bw -> zq (- zmax63) < ssoft bw o q -> ssoft bw o q < zq zmax63 ->
+  let k := sbin_index (N:=Xq) (XF bw) (XF o) (XF q) in
+  o + zq k * bw <= q /\ q < o + zq (k + 1) * bw.
+Proof.
+  intros bw o q Hb Hlo Hhi k. apply sparse_partition; [exact Hb|].
+  unfold k. apply sbin_index_exact; assumption.
+Qed.
+Print Assumptions C13_sparse_partition.
